@@ -247,7 +247,9 @@ class _CommonFile:
         records = self._records
         existing = key in records
         records[key] = value
-        if not existing:
+        # NOTE: a key that was deleted earlier still has its (skipped) source entry,
+        #       re-use that slot instead of listing the key twice.
+        if not existing and (_RECORD, key) not in self._source:
             self._source.append((_RECORD, key))
         return existing
 
